@@ -71,7 +71,8 @@ def lib_call(r, sub, fn, *args, refusals=(), **kw):
     except (HarnessError, ModelResample, BadCase):
         raise
     except refusals as exc:
-        r.refuse(f"{sub}:{type(exc).__name__}")
+        msg = re.sub(r"[^A-Za-z ]+", " ", str(exc))[:40].strip()
+        r.refuse(f"{sub}:{type(exc).__name__}:{msg}")
         return False, None
     except RecursionError as exc:
         r.fail(sub + "/exception", f"RecursionError")
